@@ -545,7 +545,7 @@ class StmtMixin:
 
     def for_over(self, p, s, itv):
         spec, k = self.loop_spec(s, p)
-        if self.lenient and isinstance(itv, (VOpaque,)):
+        if self.lenient and (isinstance(itv, (VOpaque,)) or (isinstance(itv, VRef) and itv.cls in ("list[?]", "dict[?]", "set[?]"))):
             return self.opaque_for(p, s, spec or LoopSpec(modifies=[]), k)
         # concrete short tuples: unroll exactly
         if isinstance(itv, VTup) and (spec is None or spec.unroll):
